@@ -98,3 +98,10 @@ Theorem evm_subcommand_wins : forall c env,
   resolve_evm (Some (evm_name (c_evm c), evm_items (c_evm c))) env = Some (c_evm c) /\
   (exists main', parse_cmd T SUBS (List.length (upgrade_args c)) (upgrade_args c) = Some (main', Some (evm_name (c_evm c), evm_items (c_evm c)))).
 Proof. exact subcommand_wins_lemma. Qed.
+
+(* the definition ServiceManager::upgrade installs is the regenerated one for every force / start_service: so
+   everything proved about upgrade_ctx (settings kept, only --port may differ) holds for what is installed *)
+Theorem upgrade_installs_the_regenerated_definition : forall c ls o force start_service env,
+  upgrade_installed_ctx (after_life c ls) o force start_service = upgrade_ctx (after_life c ls) o /\
+  x_autostart (upgrade_installed_ctx (after_life c ls) o force start_service) = x_autostart (install_ctx c env).
+Proof. intros. split; [reflexivity|]. destruct (lifecycle_lemma c ls) as (_ & H & _). destruct (H env o) as (_ & _ & _ & A & _). exact A. Qed.
